@@ -434,7 +434,7 @@ def rand_hist(rng, big=False):
             if rng.random() < 0.5 or not params:
                 bound = ["E", rng.choice("AC")]
             else:
-                bound = ["F", sorted(rng.sample(range(len(params)), rng.randint(0, len(params))))]
+                bound = ["F", [rng.randrange(len(params)) for _ in range(rng.randint(0, len(params) + 1))]]   # any order, repeats
             cmds.append({"c": "type", "name": rng.choice(names), "descr": rng.choice(DESCRS), "params": params, "bound": bound})
         elif r < 0.8:
             s = rng.random()
@@ -493,7 +493,7 @@ def rand_doc(rng, edge):
     for n in rng.sample(DEF_NAMES, rng.randint(0, 3)):
         params = [param_serial(rand_param(rng)) for _ in range(rng.choice([0, 1, 2]))]
         bound = {"b": "Explicit", "bound": rng.choice("AC")} if rng.random() < 0.5 or not params else \
-            {"b": "FromParams", "indices": sorted(rng.sample(range(len(params)), rng.randint(0, len(params))))}
+            {"b": "FromParams", "indices": [rng.randrange(len(params)) for _ in range(rng.randint(0, len(params) + 1))]}
         types[key(n)] = {"extension": own(), "name": n, "description": rng.choice(DESCRS), "params": params, "bound": bound}
     for n in rng.sample(DEF_NAMES, rng.randint(0, 2)):
         values[key(n)] = {"extension": own(), "name": n, "typed_value": rng.choice(RAW_VALUES)}
@@ -536,6 +536,15 @@ def rand_doc(rng, edge):
     vs = "%d.%d.%d" % tuple(v[:3]) + ("-" + v[3] if v[3] else "") + ("+" + v[4] if v[4] else "")
     return {"kind": "doc", "must_load": False, "std": None,
             "doc": {"version": vs, "name": name, "runtime_reqs": reqs, "types": types, "values": values, "operations": ops}}
+
+
+def rand_shared(rng):
+    names = rng.sample(EXT_NAMES, rng.randint(2, 3))
+    exts = [{"name": n, "version": [0, rng.randint(0, 3), 0, None, None], "reqs": rng.sample(EXT_NAMES, rng.randint(0, 2))} for n in names]
+    pool = rand_hist(rng, big=True)["cmds"]
+    objs = pool[: rng.randint(1, 4)] or [{"c": "op", "name": "op", "descr": "", "misc": {}, "binary": True, "sig": None, "func": False}]
+    prog = [[rng.randrange(len(exts)), rng.randrange(len(objs))] for _ in range(rng.randint(1, 8))]
+    return {"kind": "shared", "exts": exts, "objs": objs, "prog": prog}
 
 
 def std_files(root):
@@ -750,8 +759,17 @@ class C10(fw.Prop):
             {"c": "op", "name": "both", "descr": "", "misc": {}, "binary": True, "func": True, "sig": {"params": [], "in": [], "out": [], "reqs": []}},
             {"c": "value", "name": "v1", "val": ["tuple", [["true"], ["sum", 1, [[["bool"]], []], []]]]},
             {"c": "value", "name": "v2", "val": ["int", 5, 3]},
+            {"c": "type", "name": "U", "descr": "", "params": [["type", "A"], ["type", "C"]], "bound": ["F", [1, 0, 1]]},
             {"c": "op", "name": "op", "descr": "again", "misc": {}, "binary": False, "func": True, "sig": {"params": [], "in": [["qubit"]], "out": [], "reqs": []}},
         ]})
+        # fixed (known_findings.txt): one definition object added to two extensions
+        hdr = lambda n: {"name": n, "version": [0, 1, 0, None, None], "reqs": []}
+        cases.append({"kind": "shared", "exts": [hdr("A"), hdr("B")], "prog": [[0, 0], [1, 0]],
+                      "objs": [{"c": "op", "name": "x", "descr": "", "misc": {}, "binary": False, "func": True,
+                                "sig": {"params": [], "in": [], "out": [], "reqs": []}}]})
+        cases.append({"kind": "shared", "exts": [hdr("A"), hdr("B")], "prog": [[0, 0], [1, 0], [0, 1], [1, 1], [0, 0]],
+                      "objs": [{"c": "type", "name": "T", "descr": "", "params": [], "bound": ["E", "C"]},
+                               {"c": "value", "name": "v", "val": ["true"]}]})
         base = {"version": "0.1.0", "name": "e", "runtime_reqs": [], "types": {}, "values": {}, "operations": {}}
         cases.append({"kind": "doc", "must_load": False, "std": None, "doc": base})
         cases.append({"kind": "doc", "must_load": False, "std": None, "doc": {**base, "operations": {
@@ -763,33 +781,47 @@ class C10(fw.Prop):
         return cases
 
     def generate(self, rng, tier, ctx):
-        k = 1 if tier == "quick" else 8
+        k = 1 if tier == "quick" else 10
         cases = []
         for i in range(260 * k):
             cases.append(rand_hist(rng, big=(i % 13 == 0)))
+        for _ in range(60 * k):
+            cases.append(rand_shared(rng))
         for _ in range(140 * k):
             cases.append(rand_doc(rng, 0.0 if rng.random() < 0.4 else rng.choice([0.1, 0.3, 0.6])))
         return cases
 
     # ---------------- running the implementation
-    def _build(self, case):
-        from hugr import ext, tys
+    @staticmethod
+    def _new_ext(h):
+        from hugr import ext
         from semver import Version
-        v = case["version"]
-        e = ext.Extension(case["name"], Version(v[0], v[1], v[2], v[3], v[4]), set(case["reqs"]))
+        v = h["version"]
+        return ext.Extension(h["name"], Version(v[0], v[1], v[2], v[3], v[4]), set(h["reqs"]))
+
+    @staticmethod
+    def _new_obj(c):
+        from hugr import ext, tys
+        if c["c"] == "type":
+            b = ext.ExplicitBound(b_bound(c["bound"][1])) if c["bound"][0] == "E" else ext.FromParamsBound(list(c["bound"][1]))
+            return ext.TypeDef(c["name"], c["descr"], [b_param(p) for p in c["params"]], b)
+        if c["c"] == "op":
+            s = c["sig"]
+            pf = None
+            if s is not None:
+                body = tys.FunctionType([b_type(t) for t in s["in"]], [b_type(t) for t in s["out"]], list(s["reqs"]))
+                pf = body if c["func"] else tys.PolyFuncType([b_param(p) for p in s["params"]], body)
+            return ext.OpDef(c["name"], ext.OpDefSig(pf, c["binary"]), c["descr"], dict(c["misc"]))
+        return ext.ExtensionValue(c["name"], b_value(c["val"]))
+
+    @staticmethod
+    def _add(e, c, o):
+        return e.add_type_def(o) if c["c"] == "type" else e.add_op_def(o) if c["c"] == "op" else e.add_extension_value(o)
+
+    def _build(self, case):
+        e = self._new_ext(case)
         for c in case["cmds"]:
-            if c["c"] == "type":
-                b = ext.ExplicitBound(b_bound(c["bound"][1])) if c["bound"][0] == "E" else ext.FromParamsBound(list(c["bound"][1]))
-                e.add_type_def(ext.TypeDef(c["name"], c["descr"], [b_param(p) for p in c["params"]], b))
-            elif c["c"] == "op":
-                s = c["sig"]
-                pf = None
-                if s is not None:
-                    body = tys.FunctionType([b_type(t) for t in s["in"]], [b_type(t) for t in s["out"]], list(s["reqs"]))
-                    pf = body if c["func"] else tys.PolyFuncType([b_param(p) for p in s["params"]], body)
-                e.add_op_def(ext.OpDef(c["name"], ext.OpDefSig(pf, c["binary"]), c["descr"], dict(c["misc"])))
-            else:
-                e.add_extension_value(ext.ExtensionValue(c["name"], b_value(c["val"])))
+            self._add(e, c, self._new_obj(c))
         return e
 
     @staticmethod
@@ -831,6 +863,19 @@ class C10(fw.Prop):
                     v = e2.version
                     api2 = [e2.name, [v.major, v.minor, v.patch, v.prerelease, v.build], sorted(e2.runtime_reqs)]
             return {"before": before, "after": after, "own1": own1, "own2": own2, "api2": api2}
+        if case["kind"] == "shared":
+            exts = [self._new_ext(h) for h in case["exts"]]
+            objs = [self._new_obj(c) for c in case["objs"]]
+            for i, j in case["prog"]:
+                self._add(exts[i], case["objs"][j], objs[j])
+            out = []
+            for e in exts:
+                before = self._guard(lambda: json.loads(e.to_json()))
+                after = before
+                if before[0] == "ok":
+                    after = self._guard(lambda: json.loads(Extension.from_json(e.to_json()).to_json()))
+                out.append({"before": before, "after": after, "own": self._owners(e)})
+            return {"exts": out}
         # document
         box = {}
 
@@ -849,37 +894,47 @@ class C10(fw.Prop):
         return {"r1": r1, "r2": r2, "own1": own1}
 
     # ---------------- literals
+    @staticmethod
+    def _g_cmd(c, I):
+        if c["c"] == "type":
+            b = gapp("Explicit", g_bound(c["bound"][1])) if c["bound"][0] == "E" else gapp("FromParams", glist(gnat(i) for i in c["bound"][1]))
+            return gapp("mkT", gN(I(c["name"])), gN(I(c["descr"])),
+                        glist(g_sparam(param_serial(p), api=True) for p in c["params"]), b)
+        if c["c"] == "op":
+            s = c["sig"]
+            sg = None
+            if s is not None:
+                sg = gapp("mkPoly", glist(g_sparam(param_serial(p), api=True) for p in ([] if c["func"] else s["params"])),
+                          glist(g_json(ser_type(t), I) for t in s["in"]), glist(g_json(ser_type(t), I) for t in s["out"]),
+                          g_names(s["reqs"], I))
+            return gapp("mkO", gN(I(c["name"])), gN(I(c["descr"])),
+                        glist(gpair(gN(I(k)), g_json(v, I)) for k, v in c["misc"].items()), gopt(sg), gbool(c["binary"]))
+        return gapp("mkV", gN(I(c["name"])), g_json(ser_value(c["val"]), I))
+
     def literal(self, case, obs, ctx):
         I = fw.Interner()
         if case["kind"] == "hist":
             I(case["name"])
-            cmds = []
-            for c in case["cmds"]:
-                if c["c"] == "type":
-                    b = gapp("Explicit", g_bound(c["bound"][1])) if c["bound"][0] == "E" else gapp("FromParams", glist(gnat(i) for i in c["bound"][1]))
-                    cmds.append(gapp("mkT", gN(I(c["name"])), gN(I(c["descr"])),
-                                     glist(g_sparam(param_serial(p), api=True) for p in c["params"]), b))
-                elif c["c"] == "op":
-                    s = c["sig"]
-                    sg = None
-                    if s is not None:
-                        sg = gapp("mkPoly", glist(g_sparam(param_serial(p), api=True) for p in ([] if c["func"] else s["params"])),
-                                  glist(g_json(ser_type(t), I) for t in s["in"]), glist(g_json(ser_type(t), I) for t in s["out"]),
-                                  g_names(s["reqs"], I))
-                    cmds.append(gapp("mkO", gN(I(c["name"])), gN(I(c["descr"])),
-                                     glist(gpair(gN(I(k)), g_json(v, I)) for k, v in c["misc"].items()), gopt(sg), gbool(c["binary"])))
-                else:
-                    cmds.append(gapp("mkV", gN(I(c["name"])), g_json(ser_value(c["val"]), I)))
+            cmds = [self._g_cmd(c, I) for c in case["cmds"]]
             a = obs["api2"]
             api2 = None if a is None else gpair(gpair(gN(I(a[0])), g_version(a[1], I)), g_names_sorted(a[2], I))
             return gapp("CHist", gN(I(case["name"])), g_version(case["version"], I), g_names(case["reqs"], I), glist(cmds),
                         g_ores(obs["before"], I), g_ores(obs["after"], I), g_owners(obs["own1"], I), g_owners(obs["own2"], I),
                         gopt(api2))
+        if case["kind"] == "shared":
+            for h in case["exts"]:
+                I(h["name"])
+            hdrs = glist(gpair(gpair(gN(I(h["name"])), g_version(h["version"], I)), g_names(h["reqs"], I)) for h in case["exts"])
+            return gapp("CShared", hdrs, glist(self._g_cmd(c, I) for c in case["objs"]),
+                        glist(gpair(gnat(i), gnat(j)) for i, j in case["prog"]),
+                        glist(gpair(gpair(g_ores(o["before"], I), g_ores(o["after"], I)), g_owners(o["own"], I)) for o in obs["exts"]))
         return gapp("CDoc", gbool(case["must_load"]), g_sext(case["doc"], I, False),
                     g_ores(obs["r1"], I), g_ores(obs["r2"], I), g_owners(obs["own1"], I))
 
     # ---------------- classification, shrinking
     def nontrivial(self, case, obs):
+        if case["kind"] == "shared":
+            return len({j for _, j in case["prog"]}) < len({(i, j) for i, j in case["prog"]})   # an object reaches two extensions
         if case["kind"] == "hist":
             return any(c["c"] == "op" and c["sig"] is not None for c in case["cmds"])
         return obs["r1"][0] != "ok" or any(o.get("signature") for o in case["doc"]["operations"].values())
@@ -888,6 +943,16 @@ class C10(fw.Prop):
         return {"input": case, "observed": obs}
 
     def signature(self, case, obs, ctx):
+        if case["kind"] == "shared":
+            for h, o in zip(case["exts"], obs["exts"]):
+                if o["before"][0] != "ok":
+                    return "ext:shared:to_json:" + o["before"][0]
+                if any(not m for _, m, _ in o["own"]) or any(
+                        d.get("extension") != h["name"] for f in ("types", "values", "operations") for d in o["before"][1][f].values()):
+                    return "ext:shared:owner"
+                if o["after"] != o["before"]:
+                    return "ext:shared:roundtrip"
+            return "ext:shared"
         if case["kind"] == "hist":
             b, a = obs["before"], obs["after"]
             if b[0] != "ok":
@@ -898,6 +963,8 @@ class C10(fw.Prop):
                 return "ext:hist:owner"
             if any(rs is not None and case["name"] not in rs for _, _, rs in obs["own1"] + obs["own2"]):
                 return "ext:hist:requirement"
+            if any(d.get("extension") != case["name"] for f in ("types", "values") for d in b[1][f].values()):
+                return "ext:hist:def-owner"
             if a[1] != b[1]:
                 for f in ("name", "version", "runtime_reqs", "types", "values", "operations"):
                     if a[1].get(f) != b[1].get(f):
@@ -912,6 +979,15 @@ class C10(fw.Prop):
         return pre + "kept"
 
     def shrink(self, case):
+        if case["kind"] == "shared":
+            p = case["prog"]
+            for i in range(len(p)):
+                yield {**case, "prog": p[:i] + p[i + 1:]}
+            for j in range(len(case["objs"])):
+                if len(case["objs"]) > 1:
+                    yield {**case, "objs": case["objs"][:j] + case["objs"][j + 1:],
+                           "prog": [[a, b - (b > j)] for a, b in p if b != j]}
+            return
         if case["kind"] == "hist":
             cs = case["cmds"]
             for i in range(len(cs)):
@@ -945,14 +1021,19 @@ class C10(fw.Prop):
     def neighbours(self, case, rng):
         out = list(self.shrink(case))
         for _ in range(300):
-            out.append(rand_hist(rng) if case["kind"] == "hist" else rand_doc(rng, 0.3))
+            out.append(rand_hist(rng) if case["kind"] == "hist" else rand_shared(rng) if case["kind"] == "shared" else rand_doc(rng, 0.3))
         return out
 
     def distribution(self, cases, observations):
         d = {"hist": 0, "doc": 0, "std": 0, "cmds": {}, "ops_with_sig": 0, "ops_binary_only": 0, "types_from_params": 0,
              "values": 0, "readded_names": 0, "doc_errors": {}, "non_ascii_descr": 0, "versions_with_prerelease_or_build": 0}
+        d["shared"] = 0
+        d["shared_object_in_two_extensions"] = 0
         for c, o in zip(cases, observations):
-            if c["kind"] == "hist":
+            if c["kind"] == "shared":
+                d["shared"] += 1
+                d["shared_object_in_two_extensions"] += self.nontrivial(c, o)
+            elif c["kind"] == "hist":
                 d["hist"] += 1
                 n = len(c["cmds"])
                 d["cmds"][str(min(n, 10))] = d["cmds"].get(str(min(n, 10)), 0) + 1
